@@ -46,7 +46,9 @@ if os.path.exists(mpath):
         model = [p for p in props if matrix[name].get(p) == "M"]
         cell = ", ".join(caught) + (("; model-only: " + ", ".join(model)) if model else "")
         own = name.split("-")[0]
-        if own not in caught:
+        if own not in caught and own in model:
+            cell = "own check: correspondence only; " + cell
+        elif own not in caught:
             cell = "**own check silent** " + cell
         out.append(f"| {name} | {needs} | {cell} |")
 out += ["", "## 15. Defects repaired in /repo and known findings (generated from known_findings.json)", ""]
